@@ -79,6 +79,11 @@ def handler_variant() -> str:
     return os.environ.get("XV_HANDLER_VARIANT", "own")
 
 
+# Handler.tla: UnionPolicy "open" after the fix: commit for F52 (the union node follows its open descendant)
+def union_variant() -> str:
+    return os.environ.get("XV_UNION_VARIANT", "open")
+
+
 # Generic.tla: AnyAttrPolicy "expand" as shipped (F18 open)
 def generic_variant() -> str:
     return os.environ.get("XV_GENERIC_VARIANT", "expand")
